@@ -36,6 +36,8 @@ func runC17(c *core.Ctx) {
 	c.Rule("ORD3", "group by: WatermarkReceived → trigger → metaSend")
 	c.Rule("MULTI", "MultiTrigger forwards every call to every child")
 	c.Rule("KEY", "watermarkTriggerKey.Less: time, then key")
+	c.Rule("KEYREC", "every trigger records every key it is told about")
+	checkKeyRecorded(c)
 	checkCountingKeyReceived(c)
 	checkWatermarkPoll(c)
 	checkEOSPoll(c)
@@ -635,4 +637,63 @@ func checkWatermarkKeyLess(c *core.Ctx) {
 		}
 		c.Decide(bad == "" && len(outs) > 0, "KEY", ckey, fn.Decl.Pos(), len(outs), "", bad)
 	}
+}
+
+// checkKeyRecorded (KEYREC): every trigger's KeyReceived records the key on every path — no early return, and the
+// recording step (insert of the key, per-key counter increment, or forwarding to all children) is unconditional.
+// A trigger that forgets an updated key (e.g. "already past the watermark") never re-fires it, and the group's last
+// state is never emitted.
+func checkKeyRecorded(c *core.Ctx) {
+	p := c.Prog
+	n := 0
+	for _, fr := range p.AllFuncs("execution") {
+		if fr.Decl.Name.Name != "KeyReceived" || fr.Decl.Recv == nil {
+			continue
+		}
+		n++
+		name := p.FName(fr)
+		c.SawFunc(name)
+		keyParam := ""
+		if len(fr.Decl.Type.Params.List) == 1 && len(fr.Decl.Type.Params.List[0].Names) == 1 {
+			keyParam = fr.Decl.Type.Params.List[0].Names[0].Name
+		}
+		early := false
+		ast.Inspect(fr.Decl.Body, func(nd ast.Node) bool {
+			if _, ok := nd.(*ast.FuncLit); ok {
+				return false
+			}
+			if _, ok := nd.(*ast.ReturnStmt); ok {
+				early = true
+			}
+			return true
+		})
+		recorded := ""
+		for _, s := range fr.Decl.Body.List {
+			switch x := s.(type) {
+			case *ast.ExprStmt:
+				if call, ok := x.X.(*ast.CallExpr); ok {
+					f := core.ExprStr(call.Fun)
+					if strings.HasSuffix(f, ".ReplaceOrInsert") && strings.Contains(core.FullStr(call), keyParam) {
+						recorded = "inserts the key"
+					}
+				}
+			case *ast.IncDecStmt:
+				if strings.HasSuffix(core.ExprStr(x.X), ".Count") {
+					recorded = "counts the key"
+				}
+			case *ast.RangeStmt:
+				if strings.HasSuffix(core.ExprStr(x.X), ".triggers") && len(x.Body.List) == 1 {
+					if es, ok := x.Body.List[0].(*ast.ExprStmt); ok {
+						if call, ok := es.X.(*ast.CallExpr); ok && strings.HasSuffix(core.ExprStr(call.Fun), ".KeyReceived") && len(call.Args) == 1 && core.ExprStr(call.Args[0]) == keyParam {
+							recorded = "forwards the key to every child"
+						}
+					}
+				}
+			}
+		}
+		c.Decide(!early && recorded != "", "KEYREC", name, fr.Decl.Pos(), 1, recorded+" on every path",
+			fmt.Sprintf("KeyReceived must record every key it is told about, unconditionally (early return: %v, unconditional recording step: %q): a key dropped here — for instance because its event time is not after the watermark — is never fired again and the group's latest state is never emitted", early, recorded))
+	}
+	c.Floor("KEYREC", 4, "counting, watermark, end-of-stream and multi triggers")
+	_ = n
 }
